@@ -53,6 +53,7 @@ func vShapePlain(capacity, pad, removal int) *vWorld {
 // one freed table (target removed) and one dead, recycled parent handle.
 func vShapeRel(capacity, pad int, withFree bool, emptied int) *vWorld {
 	W := vNewWorld(capacity, 1, pad)
+	W.relShape = true
 	p0 := W.create([]int{cA}, Entity{}, Entity{})
 	p1 := W.create([]int{cA}, Entity{}, Entity{})
 	h0, h1 := W.e[p0].h, W.e[p1].h
@@ -565,6 +566,9 @@ func (W *vWorld) opTypedRemove(tag string) {
 const vNOps = 9
 
 func (W *vWorld) applyOp(op int, tag string) {
+	if W.n == 0 && op != 0 && op != 8 && op != 9 && op < 13 {
+		return // no tracked entity to operate on (after a Reset step)
+	}
 	switch op {
 	case 0:
 		W.opNew(tag)
@@ -592,6 +596,8 @@ func (W *vWorld) applyOp(op int, tag string) {
 		W.opTypedExchange(tag)
 	case 12:
 		W.opTypedRemove(tag)
+	case 13, 14, 15, 16, 17, 18:
+		W.opBatch(op-13, tag)
 	}
 }
 
@@ -699,13 +705,17 @@ func vPickOp(steps int) int {
 	vPickMax = 0
 	op := 0
 	if steps <= 2 {
-		op = vPick("op", 13)
+		op = vPick("op", 19) // 13 single-entity operations / Shrink, 5 batch operations, Reset
 	} else {
 		op = vPick("op", 6) // New, Add, Remove, Exchange, SetRelations, RemoveEntity
 	}
 	vPickMax = save
 	return op
 }
+
+// quick tier: every pair of the 19 operations with the choices narrowed to 2 alternatives
+func VerifC01_History2PlainNarrow() { vHistory(false, 2, 2) }
+func VerifC04_History2RelNarrow()   { vHistory(true, 2, 2) }
 
 func VerifC01T_History2Plain() { vNoMul = true; vHistory(false, 2, 3) }
 func VerifC04T_History2Rel()   { vNoMul = true; vHistory(true, 2, 3) }
@@ -767,4 +777,92 @@ func VerifC04_RecycleAfterArchetypeMove() {
 	}
 	W.checkAll("after")
 	vreach("end")
+}
+
+// ---- batch operations, Reset and filter registration as history steps (fixed filters; the
+// model is updated by the per-entity effect on every entity the filter's predicate selects)
+func (W *vWorld) opBatch(kind int, tag string) {
+	if vLocked {
+		return
+	}
+	hasRel := W.id[cR1].id != W.id[cA].id && W.n > 0 && W.relShape
+	switch kind {
+	case 0: // remove every entity that has A and B
+		vcheck(tag+"/batch-remove-entities/no-panic", !vpanics(func() { W.w.RemoveEntities(NewFilter2[vPos, vVel](W.w).Batch(), nil) }))
+		var gone [vNE]bool
+		for j := 0; j < W.n; j++ {
+			if W.e[j].alive && W.e[j].has[cA] && W.e[j].has[cB] {
+				W.e[j].alive = false
+				gone[j] = true
+			}
+		}
+		for j := 0; j < W.n; j++ {
+			if gone[j] {
+				W.detach(W.e[j].h)
+			}
+		}
+	case 1: // add B to everything with A and without B (pointer rows move into populated tables)
+		vcheck(tag+"/batch-add/no-panic", !vpanics(func() {
+			NewMap1[vVel](W.w).AddBatch(NewFilter1[vPos](W.w).Without(C[vVel]()).Batch(), &vVel{77})
+		}))
+		for j := 0; j < W.n; j++ {
+			if W.e[j].alive && W.e[j].has[cA] && !W.e[j].has[cB] {
+				W.e[j].has[cB] = true
+				W.e[j].vel = vVel{77}
+			}
+		}
+	case 2: // remove B from everything that has it, through a registered filter
+		f := NewFilter1[vVel](W.w).Register()
+		vcheck(tag+"/batch-remove/no-panic", !vpanics(func() { NewMap1[vVel](W.w).RemoveBatch(f.Batch(), nil) }))
+		f.Unregister()
+		for j := 0; j < W.n; j++ {
+			if W.e[j].alive && W.e[j].has[cB] {
+				W.e[j].has[cB] = false
+			}
+		}
+	case 3: // retarget R1 of every child to the first parent (relation shape) — whole tables move
+		if !hasRel || !W.e[0].alive {
+			return
+		}
+		t := W.e[0].h
+		vcheck(tag+"/batch-set-relations/no-panic", !vpanics(func() {
+			NewMap1[vChild](W.w).SetRelationsBatch(NewFilter1[vChild](W.w).Batch(), nil, RelIdx(0, t))
+		}))
+		for j := 0; j < W.n; j++ {
+			if W.e[j].alive && W.e[j].has[cR1] {
+				W.e[j].tgt[0] = t
+			}
+		}
+	case 4: // remove the children of the first parent through a registered filter with a per-call target
+		if !hasRel || !W.e[0].alive {
+			return
+		}
+		t := W.e[0].h
+		f := NewFilter1[vChild](W.w).Register()
+		vcheck(tag+"/batch-remove-children/no-panic", !vpanics(func() { W.w.RemoveEntities(f.Batch(RelIdx(0, t)), nil) }))
+		f.Unregister()
+		var gone [vNE]bool
+		for j := 0; j < W.n; j++ {
+			if W.e[j].alive && W.e[j].has[cR1] && W.e[j].tgt[0] == t {
+				W.e[j].alive = false
+				gone[j] = true
+			}
+		}
+		for j := 0; j < W.n; j++ {
+			if gone[j] {
+				W.detach(W.e[j].h)
+			}
+		}
+	case 5: // Reset: nothing is alive; the standing filters are unregistered with everything else
+		vcheck(tag+"/reset/no-panic", !vpanics(func() { W.w.Reset() }))
+		okDead := true
+		for j := 0; j < W.n; j++ {
+			okDead = okDead && !W.w.Alive(W.e[j].h)
+		}
+		vcheck(tag+"/reset/no-handle-alive", okDead)
+		W.n = 0 // handles issued before the Reset may be issued again
+		W.nStanding = 0
+	}
+	W.checkAll(tag + "/batch")
+	vreach(tag + "/batch")
 }
